@@ -425,6 +425,9 @@ type Violation struct {
 	// failing call of a concurrent execution (engine A): its record, or nil
 	// when the failing call is one of the quiescent final reads
 	failRec *callRec
+	// crash point of a violation found by the crash enumeration of a
+	// concurrent execution
+	crashAt, crashTorn int
 }
 
 func (v *Violation) Error() string {
